@@ -175,7 +175,9 @@ void harness_filter_out(void)
 	VP_ASSERT(evbuffer_get_length(g_under->output) == 0 || vp_ev_io_pending(&g_under->ev_write), "C17: filtered data queued on the underlying bufferevent but its write event is not pending");
 	VP_ASSERT((g_bevf->outbuf_cb->flags & EVBUFFER_CB_ENABLED), "C17: output callback left disabled");
 	(void)res;
+#ifndef C18_NOT_NORMAL
 	if (f_calls == 0) VP_WITNESS("filter not urged");
+#endif
 	if (U1 > U && H && U1 == H) VP_WITNESS("underlying filled exactly to its high write mark");
 	if (f_calls >= 2 && f_moved[0] && f_moved[1]) VP_WITNESS("two productive filter calls");
 	if (u_writes[F]) VP_WITNESS("write callback ran");
@@ -220,7 +222,9 @@ void harness_filter_in(void)
 	}
 	VP_ASSERT(((U_PRIV(F)->read_suspended & BEV_SUSPEND_WM) != 0) == (H != 0 && I1 >= H), "C18: filter bufferevent watermark-suspended iff its high read watermark is reached");
 	(void)res; (void)processed;
+#ifndef C18_NOT_NORMAL
 	if (f_calls == 0) VP_WITNESS("filter not urged");
+#endif
 	if (I1 > I && H && I1 == H) VP_WITNESS("input filled exactly to its high read mark");
 	if (f_calls >= 2 && f_moved[0] && f_moved[1]) VP_WITNESS("two productive filter calls");
 }
